@@ -52,6 +52,17 @@ Next ==
                          ELSE IF ev.other # <<>> THEN Flag(ev, "UnexpectedDirectoryEntry")
                          ELSE bad
                /\ UNCHANGED cfg
+       \* the collector's tick overlaps an Add of a first chunk for the same snapshot (two goroutines,
+       \* Chunk.Tick and Chunk.Add): the result must be that of one of the two orders
+       [] ev.op = "AddDuringTick" ->
+            LET tickFirst == AddOutcomes(cfg, TickStep(cfg, s), ev)
+                addFirst == {[st |-> TickStep(cfg, o.st), ret |-> o.ret, fin |-> o.fin] : o \in AddOutcomes(cfg, s, ev)}
+                outs == tickFirst \cup addFirst
+                ok == {o \in outs : Proj(o.st) = Obs(ev) /\ o.ret = ev.ret}
+                pick == IF ok # {} THEN CHOOSE o \in ok : TRUE ELSE CHOOSE o \in tickFirst : TRUE
+            IN /\ s' = pick.st
+               /\ bad' = IF ok = {} THEN Flag(ev, "CollectorInterferesWithNewStream") ELSE bad
+               /\ UNCHANGED <<cfg, extbad>>
        [] OTHER -> UNCHANGED <<s, cfg, bad, extbad>>
 
 Spec == Init /\ [][Next]_vars
